@@ -113,3 +113,47 @@ check('C16', TV,
       'concretely on enumerated coefficient values (negative, zero, 1e-9, 1e9, 1/3, infinite bounds, empty rows).',
       'SMT equivalence (xor of feasible sets, QF_LRA/QF_NRA) between formula and parsed export',
       'DESIGN.md section 4 C16')
+
+check('C10', 'proof',
+      'Inductive proof over operation chains, executed on the real methods: an arbitrary state of a Convex-family '
+      'object satisfying the invariant (k = sign*multiplier^e, offset, multiplier >= 0, sign 0 only with multiplier 0) is '
+      'built with symbolic multiplier/offset, one real operation (__neg__/__mul__/__rmul__/__add__/__radd__/__sub__/'
+      '__rsub__/__le__/__ge__/reflected/__eq__) is run concolically with symbolic scalar operands, every path is '
+      'enumerated by dynamic symbolic execution and z3 discharges per path that the invariant is re-established for the '
+      'mathematically correct (k\', a\'), that comparisons accept only convex uses, that the produced constraint record '
+      'denotes the written constraint, and that strictly convex uses are not rejected - for Convex, PerspConvex, '
+      'DecConvex, DecPerspConvex (all 18 atom type letters) and PiecewiseConvex/ExpPiecewiseConvex. Chains of any length '
+      'follow by induction. Layer T runs real atoms x chains with real affine offsets x every comparison form and min/max '
+      'objective in the ro and dro front ends: non-convex forms must raise before a program exists.',
+      'Bounded only in paths per operation (64, exhausted in every case). Trusted: the concolic scalar class, z3, the '
+      'reading of a CvxConstr record (validated by C06/C07). Affine (non-scalar) offsets are covered concretely in layer '
+      'T; bilinear products are a finite type matrix executed concretely.',
+      'concolic (dynamic symbolic) execution of the real curvature calculus + SMT per path; inductive invariant',
+      'DESIGN.md section 4 C10')
+
+check('C12', TV,
+      'Symbolic solution injection: model.solution carries an object array of symbolic entries, the real get() / '
+      '__call__ code runs unchanged, and z3 decides for ALL solution values that variable and slice read-back returns the '
+      'columns the object denotes in constraints, that affine and bi-affine expression calls equal NumPy on symbolic '
+      'arrays at assigned (or omitted = zero) realisations, that Convex.__call__ equals the atom definition times '
+      'multiplier plus offset on every concolic path (abs/max/sqrt branches explored exhaustively), and that dro '
+      'per-scenario series carry the label of their scenario for every partition and order of adapt() calls; objective '
+      'read-back follows the sense.',
+      'Trusted: harness stub scipy.sparse @ object arrays (dense); EXP/LOG uninterpreted and shared with the oracle; '
+      'coefficient tables (float arrays with NaN) are read with a sentinel solution. N/G atoms (numpy.linalg.norm on '
+      'objects) and DecConvex transcendental calls are outside.',
+      'symbolic solution injection into the real read-back code + concolic path enumeration + SMT equality',
+      'DESIGN.md section 4 C12')
+
+check('C13', TV,
+      'CrossHair exhausts the paths of the real comb_set / event_dict / flat for all partitions of up to 3 (4, restricted) '
+      'scenarios ("Confirmed over all paths", twins refuted); for every partition reachable by adapt() sequences in '
+      'every order and every dependency mask the per-scenario decision rule is read from the real rule_var() / '
+      'DecRule.to_affine() with symbolic columns and z3 decides: undeclared components have identically zero '
+      'coefficients, scenarios of one event share the rule, scenarios of different events and distinct declared '
+      'coefficients are independent, declared dependencies can be non-zero; mixed partitions give the common refinement; '
+      'illegal declarations raise.',
+      'Trusted: CrossHair 0.0.110 + z3; bounded to 2-4 scenarios and 3 random components. The illegal-declaration list '
+      'and refinement labels are finite concrete probes (auxiliary, reported separately in evidence).',
+      'CrossHair symbolic execution of pure-Python kernels + SMT over symbolic rule coefficients',
+      'DESIGN.md section 4 C13')
